@@ -30,8 +30,11 @@
 (*  E  id shapes: 3-4 operations x 5 tag patterns x every id shape x       *)
 (*     every strategy                                                      *)
 (*  F  kinds: every pair (thorough: triple) of kinds x 3 tag patterns      *)
-(*  G  yamlbare: a small slice of A, B, E                                  *)
-(* quick ~1.2k documents, thorough ~20k.                                   *)
+(*  G  yamlbare: a small slice of A and B                                  *)
+(*  H  multi-tag x colliding ids: every combination of the tag lists       *)
+(*     a / b / a,b / b,a over 3 (thorough 3-4) operations x {dupsan,       *)
+(*     presuffixed}                                                        *)
+(* quick ~1.5k documents, thorough ~19k.                                   *)
 (***************************************************************************)
 EXTENDS Surface, Json
 
@@ -131,9 +134,17 @@ DocF3(u) ==
   LET k1 == u[1]  k2 == u[2]  k3 == u[3]  tp == u[4]  g == u[5] IN
   MkDoc("g" \o S(k1) \o "x" \o S(k2) \o "x" \o S(k3) \o "x" \o S(tp) \o "x" \o S(g), 3, SubSeq(KindTagPat[tp], 1, 3), <<k1, k2, k3>>, Rot(k1 + k3, 2), g, Rend(k1 + k2 + k3 + tp + g))
 
+\* multi-tag operations x colliding ids: every combination of the tag lists a / b / a,b / b,a over 3 (thorough: 3-4)
+\* operations x {dupsan, presuffixed} - the interplay the global de-duplication of method names exists for
+IdxH(ns, gs) == {I("h", v) : v \in {v \in ns \X (2..5) \X (2..5) \X (2..5) \X (2..5) \X {3, 4} \X gs : v[1] = 4 \/ v[5] = 2}}
+DocH(u) ==
+  LET n == u[1]  s == u[6]  g == u[7]  w == u[2] + u[3] + u[4] + u[5] + s IN
+  MkDoc("h" \o S(n) \o "x" \o S(u[2]) \o S(u[3]) \o S(u[4]) \o S(u[5]) \o "x" \o S(s) \o "x" \o S(g), Rot(w, NS), SubSeq(<<u[2], u[3], u[4], u[5]>>, 1, n),
+        [j \in 1..n |-> 1], s, g, Rend(w + g))
+
 Plain(i) ==
   CASE i.f = "a" -> DocA(i.x) [] i.f = "b" -> DocB(i.x) [] i.f = "c" -> DocC(i.x) [] i.f = "d" -> DocD(i.x)
-    [] i.f = "e" -> DocE(i.x) [] i.f = "f" -> DocF2(i.x) [] i.f = "g" -> DocF3(i.x)
+    [] i.f = "e" -> DocE(i.x) [] i.f = "f" -> DocF2(i.x) [] i.f = "g" -> DocF3(i.x) [] i.f = "h" -> DocH(i.x)
 Doc(i) == IF i.bare THEN [Plain(i) EXCEPT !.rendering = "yamlbare", !.id = "y" \o @] ELSE Plain(i)
 
 \* yamlbare: a slice of A and B rendered with unquoted status keys
@@ -142,8 +153,8 @@ IdxG(full) ==
   \cup {[i EXCEPT !.bare = TRUE] : i \in {i \in IdxB(1) : i.x[1] # i.x[2] /\ (i.x[1] + 3 * i.x[2]) % (IF full THEN 3 ELSE 16) = 0}}
 
 Family ==
-  CASE Tier = "quick"    -> IdxA(FALSE) \cup IdxB(1) \cup IdxC(16, 1) \cup IdxD(2, 1) \cup IdxE({1}) \cup IdxF2({1, 3}) \cup IdxG(FALSE)
-    [] Tier = "thorough" -> IdxA(TRUE) \cup IdxB(6) \cup IdxC(2, 4) \cup IdxD(1, 12) \cup IdxE(1..NS) \cup IdxF2(1..NS) \cup IdxF3 \cup IdxG(TRUE)
+  CASE Tier = "quick"    -> IdxA(FALSE) \cup IdxB(1) \cup IdxC(16, 1) \cup IdxD(2, 1) \cup IdxE({1}) \cup IdxF2({1, 3}) \cup IdxG(FALSE) \cup IdxH({3}, {1})
+    [] Tier = "thorough" -> IdxA(TRUE) \cup IdxB(6) \cup IdxC(2, 4) \cup IdxD(1, 12) \cup IdxE(1..NS) \cup IdxF2(1..NS) \cup IdxF3 \cup IdxG(TRUE) \cup IdxH({3, 4}, {1, 2})
 
 Init == sc \in Family /\ done = FALSE
 Emit == ~done /\ done' = TRUE /\ UNCHANGED sc /\ PrintT("SCEN " \o ToJson(Doc(sc)))
